@@ -17,12 +17,14 @@ pub mod env;
 pub mod vm;
 
 pub mod c23_header;
+pub mod c32_descriptor;
 pub mod c33_align;
 
 /// Table of all bodies for the native replayer.
 pub fn replay_table() -> Vec<(&'static str, fn(&mut Src))> {
     let mut v: Vec<(&'static str, fn(&mut Src))> = Vec::new();
     v.extend_from_slice(c23_header::TABLE);
+    v.extend_from_slice(c32_descriptor::TABLE);
     v.extend_from_slice(c33_align::TABLE);
     v
 }
